@@ -187,6 +187,29 @@ def main(run):
                     run.violation("an existing destination was overwritten/truncated, or the run succeeded although a destination existed",
                                   {"input_storage": kind, "pre_existing": list(sub), "changed": bad, "exit_status": rc,
                                    "announced": announced(so), "config": open(os.path.join(w.base, "tackler.toml")).read()})
+            # ---- console output is a destination too: standard output redirected to a file that can
+            #      hold N bytes, and to a full device; success only with the complete text
+            if not w.only_exports:
+                rc0, so0, se0 = run_cli(w.args0)
+                full_text = so0.encode()
+                cons = os.path.join(w.base, "console.out")
+                cn = sorted(set([0, 1, 100, 4095, 4096, 8191, 8192, 8193, len(full_text) - 1, len(full_text), len(full_text) // 2,
+                                 max(0, len(full_text) - 4096)] + [run.rng.randint(0, len(full_text)) for _ in range(6 if quick else 200)]))
+                for N in [x for x in cn if x >= 0] + ["devfull"]:
+                    if N == "devfull":
+                        rc, _, se = run_cli(w.args0, stdout_path="/dev/full")
+                        got = None
+                    else:
+                        rc, _, se = run_cli(w.args0, fsize_limit=N, stdout_path=cons)
+                        got = open(cons, "rb").read()
+                        os.remove(cons)
+                    run.cov["evaluations"] += 1
+                    distinct.add((kind, "console", N if N == "devfull" else (N >= len(full_text)), rc == 0))
+                    if rc0 == 0 and rc == 0 and (got is None or got != full_text):
+                        run.violation("console output: the run reported success although standard output could not be written completely",
+                                      {"input_storage": kind, "stdout": ("/dev/full" if N == "devfull" else "regular file limited to %s bytes" % N),
+                                       "exit_status": rc, "bytes_written": (None if got is None else len(got)), "expected_bytes": len(full_text),
+                                       "config": open(os.path.join(w.base, "tackler.toml")).read()})
             # ---- a destination name occupied by a dangling symbolic link: the run must fail, the link must stay,
             #      and nothing may be created through it
             link_sets = [[s_] for s_ in SUFS] + [list(SUFS)]
